@@ -40,6 +40,9 @@ FIXED = [
  ("C09", "know that the xml prefix is always bound", "unresolved_namespaces reported the xml namespace for xml:lang / xml:space attributes although the xml prefix is always bound"),
  ("C10", "know that the xml prefix is always bound", "create_missing_prefixes on a tree with an xml:lang attribute bound a generated prefix n0 to the xml namespace; the serializer never writes a declaration for that namespace, so the output had n0:lang with n0 undeclared and did not re-parse"),
  ("C02", "local name xmlns (a:xmlns) is an ordinary attribute", "an attribute with a prefix and the local name xmlns (a:xmlns=\"v\") was taken for a default-namespace declaration: the attribute disappeared and unprefixed names changed namespace"),
+ ("C02", "namespace names in xmlns declarations are decoded", "the value of a namespace declaration was registered raw: xmlns:p=\"a&amp;b\" gave the namespace name 'a&amp;b' (references not decoded, value not normalised)"),
+ ("C01", "namespace names in xmlns declarations are decoded", "a namespace name containing & < or \" (registered through the API) was written raw into xmlns declarations: output not well-formed"),
+ ("C05", "append of a text node that becomes the last child", "append(p, t) of a text node t that sits between two other text nodes (adjacent text nodes exist after consolidation was switched off and on again) and is followed by nothing else: the neighbours merged, t became the last child, was merged into itself and removed: its text was lost"),
  ("C13", "compare attribute and namespace nodes by value", "deep_equal / advanced_deep_equal of two attribute nodes or two namespace nodes returned true whatever their names and values (such nodes produce no traversal events)"),
  ("C13", "shallow_equal_ignore_attributes counts", "shallow_equal_ignore_attributes with a name repeated in the ignore list that b carries: the name was subtracted twice (usize underflow panic in dev, wrong answer in release)"),
 ]
